@@ -116,6 +116,10 @@ func cmdRun(args []string) int {
 		}
 	}
 
+	if err := generateHarnessInputs(*repo, filepath.Join(vd, "harness")); err != nil {
+		fmt.Fprintln(os.Stderr, "generate:", err)
+		return 2
+	}
 	P, err := LoadProgram(*repo, filepath.Join(vd, "harness"), []string{"./diam/..."})
 	if err != nil {
 		fmt.Fprintln(os.Stderr, "load:", err)
